@@ -56,14 +56,14 @@ REQUIRED_FEATURES = {
     "quick": {
         "returned": 200, "raised": 200, "lines>=50000": 16, "stale-table:member-older": 8, "stale-table:member-newer": 8,
         "crash-fired:download": 8, "crash-fired:decompress": 8, "crash-fired:offset": 4, "net:recovered-after-10-incomplete": 1,
-        "net:gave-up-after-11-incomplete": 1, "net:offline": 5, "net:no-base-url": 5, "entry:bundled": 5, "entry:docs": 5, "followup-run": 10,
+        "net:gave-up-after-11-incomplete": 1, "net:offline": 5, "net:no-base-url": 5, "entry:bundled": 5, "bundled-entry-with-stale-table": 8, "entry:docs": 5, "followup-run": 10,
         "external-decompressor-failed-library-fallback": 3, "fmt:.bz2": 20, "fmt:.gz": 20, "fmt:.zst": 20, "fmt:.zip": 20, "fmt:.tar": 20,
         "fmt:.tar.gz": 20, "fmt:.tgz": 20, "fmt:.tar.bz2": 20, "fmt:none": 10,
     },
     "thorough": {
         "returned": 2000, "raised": 2000, "lines>=50000": 60, "stale-table:member-older": 20, "stale-table:member-newer": 20,
         "crash-fired:download": 40, "crash-fired:decompress": 40, "crash-fired:offset": 20, "net:recovered-after-10-incomplete": 2,
-        "net:gave-up-after-11-incomplete": 2, "net:offline": 50, "net:no-base-url": 50, "entry:bundled": 50, "entry:docs": 50, "followup-run": 100,
+        "net:gave-up-after-11-incomplete": 2, "net:offline": 50, "net:no-base-url": 50, "entry:bundled": 50, "bundled-entry-with-stale-table": 8, "entry:docs": 50, "followup-run": 100,
         "external-decompressor-failed-library-fallback": 20,
     },
 }
@@ -210,6 +210,15 @@ def stale_cases(tier):
                     c["init"].update({"doc": doc_state, "archive": arc_state, "table": "stale", "member": member})
                     out.append(c)
                     i += 1
+            if fmt is not None:
+                # the same through the OTHER caller of the decompressor: the document set is bundled with the track (archive next to track.json,
+                # prepare_bundled_document_set) and has to be extracted again beside the table of the earlier version
+                c = base_case("stale", fmt=fmt, corpus=dict(BIG[i % 3]), v1=dict([V1_LONG, V1_SHORT][i % 2]), rseed=i, entry="bundled")
+                c["declared"] = {"comp": i % 3 != 0, "uncomp": i % 2 == 0, "wrong": None}
+                c["init"].update({"doc": "absent", "archive": "correct", "table": "stale", "member": member, "where": 0})
+                c["slice"] = "bundled-stale-table"
+                out.append(c)
+                i += 1
     return out
 
 
@@ -604,6 +613,8 @@ def features_of(case):
         f.add("lines>=50000")
     if case["init"]["table"] == "stale" and case["corpus"]["lines"] >= STRIDE:
         f.add(f"stale-table:member-{case['init']['member']}")
+    if case.get("slice") == "bundled-stale-table":
+        f.add("bundled-entry-with-stale-table")
     if case["declared"]["wrong"]:
         f.add("declared-wrong")
     for o in {o["o"] for o in case["net"]["script"]} | ({case["net"]["tail"]["o"]} - {"ok"}):
